@@ -544,6 +544,6 @@ func init() {
 		Run:            c10Run,
 		Replay:         c10Replay,
 		QuickBudget:    5 * time.Minute,
-		ThoroughBudget: 30 * time.Minute,
+		ThoroughBudget: 60 * time.Minute,
 	})
 }
